@@ -120,9 +120,35 @@ def check(ctx):
             ctx.analysed["configs"] += 1
             mode = f"correct_scale={cs},only_scale={cos},n" \
                    f"{'==-1' if n_all else ' given'}"
-            um = r.calls(UME)
-            ctx.require(len(um) == 1, f"align[{mode}]: expected exactly one "
-                        f"Umeyama call, found {len(um)}")
+            um_all = [e for e in r.calls(UME)
+                      if not tm.is_const(e.live, False)]
+            ctx.require(len(um_all) >= 1, f"align[{mode}]: no Umeyama call")
+            if len(um_all) > 1:
+                # several call sites remain under this configuration (e.g. a
+                # shortcut branch): each is checked for the first-n rule
+                from ..lib import comparisons
+                cnt = tm.attr(selfp, "num_poses")
+                for e in um_all:
+                    bb = e.data["bound"]
+                    xs_ = _strip_T(bb.get("x")) if bb.get("x") else None
+                    ys_ = _strip_T(bb.get("y")) if bb.get("y") else None
+                    xn_ = _row_slice(xs_)[1] if xs_ is not None else None
+                    yn_ = _row_slice(ys_)[1] if ys_ is not None else None
+                    if n_all or (xn_ is npar and yn_ is npar):
+                        continue
+                    whole = any(c == (cnt, "LtE", npar) or
+                                c == (cnt, "Lt", npar)
+                                for c in comparisons(e.live))
+                    ctx.ob("C04.2", e, whole,
+                           f"align[{mode}]: unsliced Umeyama call only when "
+                           f"n covers all poses (count <= n)" if whole else
+                           f"align[{mode}]: with n given, the Umeyama call "
+                           f"at {e.where} uses *all* poses under "
+                           f"{fmt(e.live)[:120]} — the transformation must "
+                           f"be determined from the first n pose pairs only",
+                           key="C04.2:first-n")
+                continue
+            um = um_all
             b = um[0].data["bound"]
             x, y, ws = b.get("x"), b.get("y"), b.get("with_scale")
             xs, ys = _strip_T(x) if x else None, _strip_T(y) if y else None
